@@ -131,6 +131,7 @@ def observe(chunk, msgs=True, ceilo=True):
                 o['msgs'][w] = chunk.metar_msg(w)
             except AmpycloudError:
                 o['msgs'][w] = '<AmpycloudError>'
+        o['flag_after_msgs'] = bool(chunk.clouds_above_msa_buffer)        # asking for a message is a pure query
     return o
 
 
